@@ -260,6 +260,13 @@ func totalComponent(g *G, n int, opts map[string]string) *Out {
 			}
 			js, _ := json.Marshal(doc)
 			text := string(js)
+			// a later revision of the same document, loaded into the same Spec value after it was compiled
+			var doc2 interface{} = deepCopy(doc, nil)
+			for k := 1 + g.intn(3); k > 0; k-- {
+				doc2 = g.mutateDoc(doc2, 0)
+			}
+			js2, _ := json.Marshal(doc2)
+			reviseForce := g.chance(0.5)
 			asYAML := g.chance(0.4)
 			if asYAML {
 				if y, err := yaml.Marshal(doc); err == nil {
@@ -285,6 +292,14 @@ func totalComponent(g *G, n int, opts map[string]string) *Out {
 				}
 				compiled = true
 				walkEverywhere(&spec, msg)
+				// the revision arrives: decoded into the same value, compiled again (with and without force), walked
+				if json.Unmarshal(js2, &spec) == nil {
+					ctx2, cancel2 := context.WithTimeout(context.Background(), 2*time.Second)
+					defer cancel2()
+					if err := spec.Compile(ctx2, stdInterpreters, reviseForce); err == nil {
+						walkEverywhere(&spec, msg)
+					}
+				}
 			})
 			kind := "specdoc-json"
 			if asYAML {
@@ -294,7 +309,8 @@ func totalComponent(g *G, n int, opts map[string]string) *Out {
 			if compiled {
 				o.count("specdoc-compiled")
 			}
-			c = &totalCase{Kind: kind, Doc: text, Go: map[string]interface{}{"outcome": outcome, "compiled": compiled}}
+			c = &totalCase{Kind: kind, Doc: text, Go: map[string]interface{}{"outcome": outcome, "compiled": compiled,
+				"revision": string(js2), "revision_forced": reviseForce}}
 		} else {
 			// scripts against the whole environment object
 			src := g.jsProgram()
